@@ -1,6 +1,12 @@
 import GeoVerif.Model.UTMUPS
+import GeoVerif.Props.C16
+import GeoVerif.Proofs.F64Val
+import GeoVerif.Proofs.F64Round
 import Mathlib.Tactic.SplitIfs
 import Mathlib.Tactic.IntervalCases
+import Mathlib.Tactic.Linarith
+import Mathlib.Algebra.Order.Floor.Ring
+import Mathlib.Data.Rat.Floor
 /-! # C04 — property theorems (UTM/UPS discrete rules) -/
 namespace GeoVerif.Props.C04
 open GeoVerif GeoVerif.UTMUPS Gen.UTM
@@ -124,5 +130,431 @@ theorem epsg_roundtrip (z : Int) (n : Bool) (h : 0 ≤ z ∧ z ≤ 60) : decodeE
 /-- same-zone transfer only shifts the northing by ±10 000 km on a hemisphere change, and UPS cannot change hemisphere -/
 theorem transfer_same_ups (np : Bool) (x y : F64) : (transferSameZone 0 np x y (!np)).toOption = none := by
   cases np <;> simp [transferSameZone, Except.toOption]
+
+/-! ### `CheckCoords` over the value semantics -/
+
+theorem val_ofInt (n : ℤ) : (F64.ofInt n).val = n := by
+  unfold F64.ofInt F64.val; rw [F64.toDy_ofDy]; simp [Dy.val]
+
+theorem ofInt_fin (n : ℤ) : F64.ofInt n = F64.fin (decide (n < 0)) n.natAbs 0 := rfl
+
+/-- `x < n` in binary64 (false for NaN) -/
+theorem lt_ofInt (x : F64) (n : ℤ) :
+    F64.lt x (F64.ofInt n) = true ↔ x = F64.inf true ∨ (x.isFinite = true ∧ x.val < n) := by
+  rw [ofInt_fin]
+  cases x with
+  | nan => simp [F64.lt, F64.isFinite]
+  | inf s => cases s <;> simp [F64.lt, F64.isFinite]
+  | fin s m e =>
+    have : F64.lt (F64.fin s m e) (F64.fin (decide (n < 0)) n.natAbs 0)
+        = Dy.lt (F64.fin s m e).toDy (F64.fin (decide (n < 0)) n.natAbs 0).toDy := rfl
+    rw [this, Dy.lt_iff, ← ofInt_fin]
+    have h := val_ofInt n
+    unfold F64.val at h
+    rw [h]
+    simp [F64.isFinite, F64.val]
+
+theorem gt_ofInt (x : F64) (n : ℤ) :
+    F64.gt x (F64.ofInt n) = true ↔ x = F64.inf false ∨ (x.isFinite = true ∧ (n:ℚ) < x.val) := by
+  unfold F64.gt
+  rw [ofInt_fin]
+  cases x with
+  | nan => simp [F64.lt, F64.isFinite]
+  | inf s => cases s <;> simp [F64.lt, F64.isFinite]
+  | fin s m e =>
+    have : F64.lt (F64.fin (decide (n < 0)) n.natAbs 0) (F64.fin s m e)
+        = Dy.lt (F64.fin (decide (n < 0)) n.natAbs 0).toDy (F64.fin s m e).toDy := rfl
+    rw [this, Dy.lt_iff, ← ofInt_fin]
+    have h := val_ofInt n
+    unfold F64.val at h
+    rw [h]
+    simp [F64.isFinite, F64.val]
+
+/-- a coordinate passes a closed-interval test of `CheckCoords`: NaN, or finite with `lo ≤ v ≤ hi` -/
+def InRange (v : F64) (lo hi : ℤ) : Prop := v.isNaN = true ∨ (v.isFinite = true ∧ (lo:ℚ) ≤ v.val ∧ v.val ≤ hi)
+
+theorem inRange_iff (v : F64) (lo hi : ℤ) :
+    (!(F64.lt v (F64.ofInt lo) || F64.gt v (F64.ofInt hi))) = true ↔ InRange v lo hi := by
+  rw [Bool.not_eq_true', Bool.or_eq_false_iff]
+  rw [← Bool.not_eq_true, ← Bool.not_eq_true, lt_ofInt, gt_ofInt]
+  unfold InRange
+  cases v with
+  | nan => simp [F64.isNaN, F64.isFinite]
+  | inf s => cases s <;> simp [F64.isNaN, F64.isFinite]
+  | fin s m e => simp [F64.isNaN, F64.isFinite]
+
+/-- **`CheckCoords` accepts exactly the closed rectangles of the tables** (read from the source), widened by one MGRS
+    tile (100 km) unless `mgrslimits`; NaN coordinates are accepted, infinities are not -/
+theorem checkCoords_iff (utmp northp : Bool) (x y : F64) (mgrslimits : Bool) :
+    checkCoords utmp northp x y mgrslimits = true ↔
+      InRange x (utm_mineasting.getD (ind utmp northp) 0 - (if mgrslimits then 0 else mgrs_tile))
+                (utm_maxeasting.getD (ind utmp northp) 0 + (if mgrslimits then 0 else mgrs_tile)) ∧
+      InRange y (utm_minnorthing.getD (ind utmp northp) 0 - (if mgrslimits then 0 else mgrs_tile))
+                (utm_maxnorthing.getD (ind utmp northp) 0 + (if mgrslimits then 0 else mgrs_tile)) := by
+  unfold checkCoords
+  simp only [Bool.and_eq_true]
+  rw [inRange_iff, inRange_iff]
+
+/-- the four rectangles with the numbers of the documentation (`s` = 100 km unless `mgrslimits`): UTM eastings
+    [1, 9]·10⁵; northings north [−90, 95]·10⁵, south [10, 195]·10⁵; UPS north [13, 27]·10⁵, south [8, 32]·10⁵ in
+    both coordinates -/
+theorem checkCoords_rectangles (x y : F64) (mg : Bool) :
+    (checkCoords true true x y mg = true ↔
+      InRange x (100000 - (if mg then 0 else 100000)) (900000 + (if mg then 0 else 100000)) ∧
+      InRange y (-9000000 - (if mg then 0 else 100000)) (9500000 + (if mg then 0 else 100000))) ∧
+    (checkCoords true false x y mg = true ↔
+      InRange x (100000 - (if mg then 0 else 100000)) (900000 + (if mg then 0 else 100000)) ∧
+      InRange y (1000000 - (if mg then 0 else 100000)) (19500000 + (if mg then 0 else 100000))) ∧
+    (checkCoords false true x y mg = true ↔
+      InRange x (1300000 - (if mg then 0 else 100000)) (2700000 + (if mg then 0 else 100000)) ∧
+      InRange y (1300000 - (if mg then 0 else 100000)) (2700000 + (if mg then 0 else 100000))) ∧
+    (checkCoords false false x y mg = true ↔
+      InRange x (800000 - (if mg then 0 else 100000)) (3200000 + (if mg then 0 else 100000)) ∧
+      InRange y (800000 - (if mg then 0 else 100000)) (3200000 + (if mg then 0 else 100000))) := by
+  refine ⟨?_, ?_, ?_, ?_⟩ <;> rw [checkCoords_iff] <;> rfl
+
+/-- non-vacuity: the edges are accepted, one metre outside the widened rectangle is not, NaN is, +∞ is not -/
+example : checkCoords true true (F64.ofInt 900000) (F64.ofInt (-9000000)) true = true ∧
+    checkCoords true true (F64.ofInt 900001) (F64.ofInt 0) true = false ∧
+    checkCoords true true (F64.ofInt 1000000) (F64.ofInt 0) false = true ∧
+    checkCoords true true (F64.ofInt 1000001) (F64.ofInt 0) false = false ∧
+    checkCoords false false F64.nan (F64.ofInt 800000) true = true ∧
+    checkCoords false false (F64.inf false) (F64.ofInt 800000) true = false := by decide +kernel
+
+/-! ### `Transfer` -/
+
+/-- the northing shift applied when the hemisphere changes: ∓10 000 km (constant read from the source) -/
+def nshift (northpout : Bool) : F64 := F64.ofInt (if northpout then -10000000 else 10000000)
+
+/-- **same zone**: the easting and the zone are returned unchanged; the northing is unchanged, or shifted by exactly
+    ∓10⁷ m when the hemisphere changes; UPS cannot change hemisphere.  The kernels are not consulted. -/
+theorem transfer_same (zone : Int) (nin nout : Bool) (x y : F64)
+    (rev : Int → Bool → F64 → F64 → Except Err (F64 × F64)) (fwd : F64 → F64 → Int → Except Err FwdOut) :
+    transfer zone nin x y zone nout rev fwd =
+      if zone = 0 ∧ nin ≠ nout then .error "UPS between hemispheres"
+      else .ok (x, if nin ≠ nout then y + nshift nout else y, zone) := by
+  unfold transfer transferSameZone nshift
+  simp only [ne_eq, not_true_eq_false, if_false, mgrs_utmNshift]
+  cases nout <;> rfl
+
+/-- **different zones**: `Transfer` is `Forward ∘ Reverse` (for every pair of kernels) with the requested zone
+    (`MATCH` = keep the input zone), followed by the hemisphere bookkeeping on *Forward's* hemisphere -/
+theorem transfer_diff (zin zout : Int) (nin nout : Bool) (x y lat lon : F64) (o : FwdOut)
+    (rev : Int → Bool → F64 → F64 → Except Err (F64 × F64)) (fwd : F64 → F64 → Int → Except Err FwdOut)
+    (h : zin ≠ zout) (hr : rev zin nin x y = .ok (lat, lon))
+    (hf : fwd lat lon (if zout = zMATCH then zin else zout) = .ok o) :
+    transfer zin nin x y zout nout rev fwd =
+      if o.zone = 0 ∧ o.northp ≠ nout then .error "UPS between hemispheres"
+      else .ok (o.x, if o.northp ≠ nout then o.y + nshift nout else o.y, o.zone) := by
+  unfold transfer nshift
+  simp only [ne_eq, h, not_false_eq_true, if_true, mgrs_utmNshift]
+  rw [hr]
+  simp only [bind, Except.bind, hf]
+  cases nout <;> split_ifs <;> rfl
+
+/-- errors of the kernels propagate: nothing is returned when `Reverse` or `Forward` throws -/
+theorem transfer_rev_error (zin zout : Int) (nin nout : Bool) (x y : F64) (e : Err)
+    (rev : Int → Bool → F64 → F64 → Except Err (F64 × F64)) (fwd : F64 → F64 → Int → Except Err FwdOut)
+    (h : zin ≠ zout) (hr : rev zin nin x y = .error e) :
+    transfer zin nin x y zout nout rev fwd = .error e := by
+  unfold transfer
+  simp only [ne_eq, h, not_false_eq_true, if_true]
+  rw [hr]; rfl
+
+theorem transfer_fwd_error (zin zout : Int) (nin nout : Bool) (x y lat lon : F64) (e : Err)
+    (rev : Int → Bool → F64 → F64 → Except Err (F64 × F64)) (fwd : F64 → F64 → Int → Except Err FwdOut)
+    (h : zin ≠ zout) (hr : rev zin nin x y = .ok (lat, lon))
+    (hf : fwd lat lon (if zout = zMATCH then zin else zout) = .error e) :
+    transfer zin nin x y zout nout rev fwd = .error e := by
+  unfold transfer
+  simp only [ne_eq, h, not_false_eq_true, if_true]
+  rw [hr]
+  simp only [bind, Except.bind, hf]
+
+/-- **`transfer_spec`**: a successful transfer never yields UPS coordinates labelled with the other hemisphere, and
+    an UPS hemisphere change is always an error -/
+theorem transfer_spec (zin zout : Int) (nin nout : Bool) (x y xo yo : F64) (zo : Int)
+    (rev : Int → Bool → F64 → F64 → Except Err (F64 × F64)) (fwd : F64 → F64 → Int → Except Err FwdOut)
+    (h : transfer zin nin x y zout nout rev fwd = .ok (xo, yo, zo)) :
+    (zin = zout → zo = zin ∧ xo = x ∧ (zin = 0 → nin = nout) ∧ yo = (if nin ≠ nout then y + nshift nout else y)) ∧
+    (zin ≠ zout → ∃ lat lon o, rev zin nin x y = .ok (lat, lon) ∧ fwd lat lon (if zout = zMATCH then zin else zout) = .ok o ∧
+        zo = o.zone ∧ xo = o.x ∧ (o.zone = 0 → o.northp = nout) ∧
+        yo = (if o.northp ≠ nout then o.y + nshift nout else o.y)) := by
+  constructor
+  · intro hz; subst hz
+    rw [transfer_same] at h
+    by_cases hc : zin = 0 ∧ nin ≠ nout
+    · rw [if_pos hc] at h; cases h
+    · rw [if_neg hc] at h
+      simp only [Except.ok.injEq, Prod.mk.injEq] at h
+      obtain ⟨rfl, rfl, rfl⟩ := h
+      refine ⟨rfl, rfl, ?_, rfl⟩
+      intro h0; by_contra hne; exact hc ⟨h0, hne⟩
+  · intro hz
+    cases hr : rev zin nin x y with
+    | error e => rw [transfer_rev_error zin zout nin nout x y e rev fwd hz hr] at h; cases h
+    | ok p =>
+      obtain ⟨lat, lon⟩ := p
+      cases hf : fwd lat lon (if zout = zMATCH then zin else zout) with
+      | error e => rw [transfer_fwd_error zin zout nin nout x y lat lon e rev fwd hz hr hf] at h; cases h
+      | ok o =>
+        rw [transfer_diff zin zout nin nout x y lat lon o rev fwd hz hr hf] at h
+        by_cases hc : o.zone = 0 ∧ o.northp ≠ nout
+        · rw [if_pos hc] at h; cases h
+        · rw [if_neg hc] at h
+          simp only [Except.ok.injEq, Prod.mk.injEq] at h
+          obtain ⟨rfl, rfl, rfl⟩ := h
+          refine ⟨lat, lon, o, rfl, hf, rfl, rfl, ?_, rfl⟩
+          intro h0; by_contra hne; exact hc ⟨h0, hne⟩
+
+/-! ### `StandardZone` over real-valued latitude / longitude -/
+
+
+/-- the integer part taken by `int(floor(x))` is the floor of the value -/
+theorem fl_eq_floor (x : F64) : fl x = ⌊x.val⌋ := by
+  unfold fl
+  rw [F64.floor_toDy_floor]
+  obtain ⟨h1, h2⟩ := Dy.floor_spec x.toDy
+  symm; rw [Int.floor_eq_iff]; exact ⟨h1, h2⟩
+
+theorem le_ofInt_left (n : ℤ) (s : Bool) (m : ℕ) (e : ℤ) :
+    F64.le (F64.ofInt n) (F64.fin s m e) = true ↔ (n:ℚ) ≤ (F64.fin s m e).val := by
+  rw [ofInt_fin]
+  have : F64.le (F64.fin (decide (n < 0)) n.natAbs 0) (F64.fin s m e)
+        = Dy.le (F64.fin (decide (n < 0)) n.natAbs 0).toDy (F64.fin s m e).toDy := rfl
+  rw [this, Dy.le_iff, ← ofInt_fin]
+  have h := val_ofInt n
+  unfold F64.val at h
+  rw [h]; rfl
+
+theorem lt_ofInt_fin (n : ℤ) (s : Bool) (m : ℕ) (e : ℤ) :
+    F64.lt (F64.fin s m e) (F64.ofInt n) = true ↔ (F64.fin s m e).val < n := by
+  rw [ofInt_fin]
+  have : F64.lt (F64.fin s m e) (F64.fin (decide (n < 0)) n.natAbs 0)
+        = Dy.lt (F64.fin s m e).toDy (F64.fin (decide (n < 0)) n.natAbs 0).toDy := rfl
+  rw [this, Dy.lt_iff, ← ofInt_fin]
+  have h := val_ofInt n
+  unfold F64.val at h
+  rw [h]; rfl
+
+theorem ofInt_lt_fin (n : ℤ) (s : Bool) (m : ℕ) (e : ℤ) :
+    F64.lt (F64.ofInt n) (F64.fin s m e) = true ↔ (n:ℚ) < (F64.fin s m e).val := by
+  rw [ofInt_fin]
+  have : F64.lt (F64.fin (decide (n < 0)) n.natAbs 0) (F64.fin s m e)
+        = Dy.lt (F64.fin (decide (n < 0)) n.natAbs 0).toDy (F64.fin s m e).toDy := rfl
+  rw [this, Dy.lt_iff, ← ofInt_fin]
+  have h := val_ofInt n
+  unfold F64.val at h
+  rw [h]; rfl
+
+/-- the clamp to [−90, 90] in `LatitudeBand` does not change the value of a legal latitude -/
+theorem clamp_val (s : Bool) (m : ℕ) (e : ℤ) (h1 : -90 ≤ (F64.fin s m e).val) (h2 : (F64.fin s m e).val ≤ 90) :
+    (F64.fmax (F64.ofInt (-90)) (F64.fmin (F64.ofInt 90) (F64.fin s m e))).val = (F64.fin s m e).val := by
+  have hz : (F64.fmin (F64.ofInt 90) (F64.fin s m e)) = F64.fin s m e ∨
+      ((F64.fmin (F64.ofInt 90) (F64.fin s m e)) = F64.ofInt 90 ∧ (F64.fin s m e).val = 90) := by
+    unfold F64.fmin
+    have a : (F64.ofInt 90).isNaN = false := rfl
+    have b : (F64.fin s m e).isNaN = false := rfl
+    rw [a, b]; simp only [Bool.false_eq_true, if_false]
+    by_cases hl : F64.lt (F64.fin s m e) (F64.ofInt 90) = true
+    · rw [if_pos hl]; exact Or.inl rfl
+    · rw [if_neg hl]; right; refine ⟨rfl, ?_⟩
+      rw [lt_ofInt_fin] at hl; push_cast at hl; linarith
+  rcases hz with hz | ⟨hz, hv⟩
+  · rw [hz]
+    unfold F64.fmax
+    have a : (F64.ofInt (-90)).isNaN = false := rfl
+    have b : (F64.fin s m e).isNaN = false := rfl
+    rw [a, b]; simp only [Bool.false_eq_true, if_false]
+    by_cases hl : F64.lt (F64.ofInt (-90)) (F64.fin s m e) = true
+    · rw [if_pos hl]
+    · rw [if_neg hl]
+      rw [ofInt_lt_fin] at hl; push_cast at hl
+      rw [val_ofInt]; push_cast; linarith
+  · rw [hz, hv]
+    have : F64.fmax (F64.ofInt (-90)) (F64.ofInt 90) = F64.ofInt 90 := by rfl
+    rw [this, val_ofInt]; norm_num
+
+/-- the zone rule on real latitude `φ` and normalised longitude `L ∈ [−180, 180)` (UTM part) -/
+def zoneQ (φ L : ℚ) : ℤ :=
+  if 56 ≤ φ ∧ φ < 64 ∧ 3 ≤ L ∧ L < 6 then 32
+  else if 72 ≤ φ ∧ 0 ≤ L ∧ L < 42 then (if L < 9 then 31 else if L < 21 then 33 else if L < 33 then 35 else 37)
+  else ⌊(L + 180) / 6⌋ + 1
+
+theorem floor_div6 (L : ℚ) : ⌊(L + 180) / 6⌋ = (⌊L⌋ + 180) / 6 := by
+  rw [Int.floor_eq_iff]
+  have h1 := Int.floor_le L
+  have h2 := Int.lt_floor_add_one L
+  have h3 : 6 * ((⌊L⌋ + 180) / 6) ≤ ⌊L⌋ + 180 := by omega
+  have h4 : ⌊L⌋ + 180 < 6 * ((⌊L⌋ + 180) / 6) + 6 := by omega
+  have h3' : (6:ℚ) * (((⌊L⌋ + 180) / 6 : ℤ) : ℚ) ≤ (⌊L⌋ : ℚ) + 180 := by exact_mod_cast h3
+  have h4' : (⌊L⌋ : ℚ) + 180 + 1 ≤ 6 * (((⌊L⌋ + 180) / 6 : ℤ) : ℚ) + 6 := by exact_mod_cast h4
+  constructor
+  · rw [le_div_iff₀ (by norm_num)]; linarith
+  · rw [div_lt_iff₀ (by norm_num)]; linarith
+
+/-- the integer zone rule of the code, applied to `⌊φ⌋` and `⌊N⌋`, is the real-valued rule (the code's special case
+    `⌊N⌋ = 180 ↦ −180` is the normalisation of `N = 180` to `−180`) -/
+theorem utmZone_eq (φ N : ℚ) (hφ : -90 ≤ φ ∧ φ ≤ 90) (hN : -180 ≤ N ∧ N ≤ 180) :
+    utmZoneI (latitudeBandI ⌊φ⌋) ⌊N⌋ = zoneQ φ (if N = 180 then -180 else N) := by
+  have hN180 : ⌊N⌋ = 180 ↔ N = 180 := by
+    constructor
+    · intro h
+      have := Int.floor_le N; rw [h] at this; push_cast at this; linarith [hN.2]
+    · intro h; rw [h]; norm_num
+  set L : ℚ := if N = 180 then -180 else N with hL
+  have hfl : ⌊L⌋ = if ⌊N⌋ = 180 then -180 else ⌊N⌋ := by
+    rw [hL]; by_cases h : N = 180
+    · rw [if_pos h, if_pos (hN180.mpr h)]; norm_num
+    · rw [if_neg h, if_neg (fun hh => h (hN180.mp hh))]
+  have b1 : -90 ≤ ⌊φ⌋ := by rw [Int.le_floor]; push_cast; exact hφ.1
+  have b2 : ⌊φ⌋ ≤ 90 := by
+    have : ⌊φ⌋ < 91 := by rw [Int.floor_lt]; push_cast; linarith [hφ.2]
+    omega
+  have c1 : -180 ≤ ⌊N⌋ := by rw [Int.le_floor]; push_cast; exact hN.1
+  have c2 : ⌊N⌋ ≤ 180 := by
+    have : ⌊N⌋ < 181 := by rw [Int.floor_lt]; push_cast; linarith [hN.2]
+    omega
+  have q (z : ℤ) (r : ℚ) : (z:ℚ) ≤ r ↔ z ≤ ⌊r⌋ := Int.le_floor.symm
+  have p (z : ℤ) (r : ℚ) : r < (z:ℚ) ↔ ⌊r⌋ < z := Int.floor_lt.symm
+  unfold zoneQ
+  rw [floor_div6]
+  have e1 : (56:ℚ) ≤ φ ↔ 56 ≤ ⌊φ⌋ := by exact_mod_cast q 56 φ
+  have e2 : φ < (64:ℚ) ↔ ⌊φ⌋ < 64 := by exact_mod_cast p 64 φ
+  have e3 : (72:ℚ) ≤ φ ↔ 72 ≤ ⌊φ⌋ := by exact_mod_cast q 72 φ
+  have f1 : (3:ℚ) ≤ L ↔ 3 ≤ ⌊L⌋ := by exact_mod_cast q 3 L
+  have f2 : L < (6:ℚ) ↔ ⌊L⌋ < 6 := by exact_mod_cast p 6 L
+  have f3 : (0:ℚ) ≤ L ↔ 0 ≤ ⌊L⌋ := by exact_mod_cast q 0 L
+  have f4 : L < (42:ℚ) ↔ ⌊L⌋ < 42 := by exact_mod_cast p 42 L
+  have f5 : L < (9:ℚ) ↔ ⌊L⌋ < 9 := by exact_mod_cast p 9 L
+  have f6 : L < (21:ℚ) ↔ ⌊L⌋ < 21 := by exact_mod_cast p 21 L
+  have f7 : L < (33:ℚ) ↔ ⌊L⌋ < 33 := by exact_mod_cast p 33 L
+  simp only [e1, e2, e3, f1, f2, f3, f4, f5, f6, f7, hfl]
+  clear e1 e2 e3 f1 f2 f3 f4 f5 f6 f7 hfl hN180 q p
+  generalize ⌊φ⌋ = ip at *
+  generalize ⌊N⌋ = il at *
+  unfold utmZoneI latitudeBandI
+  simp only [Gen.MathC.hd, Int.tdiv_eq_ediv, s6, s8, s12]
+  split_ifs <;> omega
+
+
+theorem zoneQ_range (φ L : ℚ) (hL : -180 ≤ L ∧ L < 180) : 1 ≤ zoneQ φ L ∧ zoneQ φ L ≤ 60 := by
+  unfold zoneQ
+  rw [floor_div6]
+  have c1 : -180 ≤ ⌊L⌋ := by rw [Int.le_floor]; push_cast; exact hL.1
+  have c2 : ⌊L⌋ < 180 := by rw [Int.floor_lt]; push_cast; exact hL.2
+  split_ifs <;> omega
+
+/-- **`StandardZone` on real-valued coordinates** (`setzone` = STANDARD or MATCH): for every finite latitude in
+    [−90, 90] and every finite longitude there is the normalised longitude `L ∈ [−180, 180)`, `L ≡ lon (mod 360)`
+    exactly, such that the result is UPS (0) iff `lat < −80 ∨ lat ≥ 84`, and otherwise the 6° zone
+    `⌊(L+180)/6⌋ + 1` with the Norway (band V, 3 ≤ L < 6 ↦ 32) and Svalbard (band X, 0 ≤ L < 42 ↦ 31/33/35/37 by the
+    9/21/33 rule) exceptions — on the *values* of the binary64 arguments, not only on integer degrees -/
+theorem standardZone_spec (slat slon : Bool) (mlat mlon : ℕ) (elat elon : ℤ) (sz : ℤ) (hsz : sz = zSTANDARD ∨ sz = zMATCH)
+    (h1 : -90 ≤ (F64.fin slat mlat elat).val) (h2 : (F64.fin slat mlat elat).val ≤ 90) :
+    ∃ L : ℚ, (-180 ≤ L ∧ L < 180) ∧ (∃ n : ℤ, L = (F64.fin slon mlon elon).val - 360 * n) ∧
+      standardZone (F64.fin slat mlat elat) (F64.fin slon mlon elon) sz =
+        .ok (if (F64.fin slat mlat elat).val < -80 ∨ 84 ≤ (F64.fin slat mlat elat).val then 0
+             else zoneQ (F64.fin slat mlat elat).val L) := by
+  obtain ⟨hfin, ⟨n, hn⟩, habs, _⟩ := C16.angNormalize_spec slon mlon elon
+  set N := (MathF.angNormalize (F64.fin slon mlon elon)).val with hNdef
+  have hN : -180 ≤ N ∧ N ≤ 180 := abs_le.mp habs
+  refine ⟨if N = 180 then -180 else N, ?_, ?_, ?_⟩
+  · by_cases h : N = 180
+    · rw [if_pos h]; norm_num
+    · rw [if_neg h]; exact ⟨hN.1, lt_of_le_of_ne hN.2 h⟩
+  · by_cases h : N = 180
+    · rw [if_pos h]; exact ⟨n + 1, by push_cast; linarith⟩
+    · rw [if_neg h]; exact ⟨n, hn⟩
+  · set lat := F64.fin slat mlat elat with hlat
+    have hcond : (F64.ge lat (F64.ofInt (-80)) && F64.lt lat (F64.ofInt 84)) = true ↔ ¬ (lat.val < -80 ∨ 84 ≤ lat.val) := by
+      rw [Bool.and_eq_true]
+      unfold F64.ge
+      rw [hlat, le_ofInt_left, lt_ofInt_fin]; push_cast
+      constructor
+      · rintro ⟨a, b⟩ (c | c) <;> linarith
+      · intro h; push Not at h; exact ⟨h.1, h.2⟩
+    have hband : latitudeBand lat = latitudeBandI ⌊lat.val⌋ := by
+      unfold latitudeBand
+      simp only [Gen.MathC.qd]
+      rw [fl_eq_floor, hlat, clamp_val slat mlat elat h1 h2]
+    have hz := utmZone_eq lat.val N ⟨h1, h2⟩ hN
+    unfold standardZone
+    have hfinb : (lat.isFinite && (F64.fin slon mlon elon).isFinite) = true := rfl
+    rw [hfinb]
+    rcases hsz with rfl | rfl
+    · simp only [zSTANDARD, zMINPSEUDOZONE, zMAXZONE, zMINZONE, zINVALID, zUTM, zUPS]
+      by_cases hc : (F64.ge lat (F64.ofInt (-80)) && F64.lt lat (F64.ofInt 84)) = true
+      · have hc' := hcond.mp hc
+        rw [if_neg hc', hband, fl_eq_floor, hz]
+        simp [hc]
+      · have hc' : (lat.val < -80 ∨ 84 ≤ lat.val) := by by_contra h; exact hc (hcond.mpr h)
+        rw [if_pos hc']
+        simp [hc]
+    · simp only [zMATCH, zMINPSEUDOZONE, zMAXZONE, zMINZONE, zINVALID, zUTM, zUPS]
+      by_cases hc : (F64.ge lat (F64.ofInt (-80)) && F64.lt lat (F64.ofInt 84)) = true
+      · have hc' := hcond.mp hc
+        rw [if_neg hc', hband, fl_eq_floor, hz]
+        simp [hc]
+      · have hc' : (lat.val < -80 ∨ 84 ≤ lat.val) := by by_contra h; exact hc (hcond.mpr h)
+        rw [if_pos hc']
+        simp [hc]
+
+/-- `setzone = UTM` never gives UPS: the same rule without the polar cut (band X extends to the pole, band C to −90) -/
+theorem standardZone_utm (slat slon : Bool) (mlat mlon : ℕ) (elat elon : ℤ)
+    (h1 : -90 ≤ (F64.fin slat mlat elat).val) (h2 : (F64.fin slat mlat elat).val ≤ 90) :
+    ∃ L : ℚ, (-180 ≤ L ∧ L < 180) ∧ (∃ n : ℤ, L = (F64.fin slon mlon elon).val - 360 * n) ∧
+      standardZone (F64.fin slat mlat elat) (F64.fin slon mlon elon) zUTM = .ok (zoneQ (F64.fin slat mlat elat).val L) ∧
+      1 ≤ zoneQ (F64.fin slat mlat elat).val L ∧ zoneQ (F64.fin slat mlat elat).val L ≤ 60 := by
+  obtain ⟨hfin, ⟨n, hn⟩, habs, _⟩ := C16.angNormalize_spec slon mlon elon
+  set N := (MathF.angNormalize (F64.fin slon mlon elon)).val with hNdef
+  have hN : -180 ≤ N ∧ N ≤ 180 := abs_le.mp habs
+  have hLr : -180 ≤ (if N = 180 then -180 else N) ∧ (if N = 180 then -180 else N) < 180 := by
+    by_cases h : N = 180
+    · rw [if_pos h]; norm_num
+    · rw [if_neg h]; exact ⟨hN.1, lt_of_le_of_ne hN.2 h⟩
+  refine ⟨if N = 180 then -180 else N, hLr, ?_, ?_, zoneQ_range _ _ hLr⟩
+  · by_cases h : N = 180
+    · rw [if_pos h]; exact ⟨n + 1, by push_cast; linarith⟩
+    · rw [if_neg h]; exact ⟨n, hn⟩
+  · set lat := F64.fin slat mlat elat with hlat
+    have hband : latitudeBand lat = latitudeBandI ⌊lat.val⌋ := by
+      unfold latitudeBand
+      simp only [Gen.MathC.qd]
+      rw [fl_eq_floor, hlat, clamp_val slat mlat elat h1 h2]
+    have hz := utmZone_eq lat.val N ⟨h1, h2⟩ hN
+    unfold standardZone
+    have hfinb : (lat.isFinite && (F64.fin slon mlon elon).isFinite) = true := rfl
+    rw [hfinb]
+    simp only [zMINPSEUDOZONE, zMAXZONE, zMINZONE, zINVALID, zUTM]
+    rw [hband, fl_eq_floor, hz]
+    simp
+
+/-- an explicit zone (0..60) or INVALID is returned as is; NaN or infinite coordinates give INVALID -/
+theorem standardZone_explicit (lat lon : F64) (sz : ℤ) (h : (0 ≤ sz ∧ sz ≤ 60) ∨ sz = -4) :
+    standardZone lat lon sz = .ok sz := by
+  unfold standardZone
+  simp only [zMINPSEUDOZONE, zMAXZONE, zMINZONE, zINVALID]
+  have a : (sz ≥ -4 ∧ sz ≤ 60) := by omega
+  have b : (sz ≥ 0 ∨ sz = -4) := by omega
+  simp [a, b]
+
+theorem standardZone_nonfinite (lat lon : F64) (sz : ℤ) (hsz : sz = -1 ∨ sz = -2 ∨ sz = -3)
+    (h : lat.isFinite = false ∨ lon.isFinite = false) : standardZone lat lon sz = .ok (-4) := by
+  unfold standardZone
+  simp only [zMINPSEUDOZONE, zMAXZONE, zMINZONE, zINVALID]
+  have a : (sz ≥ -4 ∧ sz ≤ 60) := by omega
+  have b : ¬ (sz ≥ 0 ∨ sz = -4) := by omega
+  have c : (lat.isFinite && lon.isFinite) = false := by rcases h with h | h <;> simp [h]
+  simp [a, b, c]
+
+/-- non-vacuity of `standardZone_spec` / `standardZone_utm`: (60.5°, 5.5°) is in the Norway window,
+    (78°, 20.5° + 720°) in Svalbard's zone 33, (84°, 0°) is UPS, and zone 31 under `UTM` -/
+example : standardZone (F64.fin false 121 (-1)) (F64.fin false 11 (-1)) (-1) = .ok 32 ∧
+    standardZone (F64.fin false 78 0) (F64.fin false 1481 (-1)) (-1) = .ok 33 ∧
+    standardZone (F64.fin false 84 0) (F64.fin false 0 0) (-1) = .ok 0 ∧
+    standardZone (F64.fin false 84 0) (F64.fin false 0 0) (-2) = .ok 31 := by decide +kernel
+example : -90 ≤ (F64.fin false 121 (-1)).val ∧ (F64.fin false 121 (-1)).val ≤ 90 := by
+  rw [F64.val_fin]; norm_num
 
 end GeoVerif.Props.C04
